@@ -20,6 +20,7 @@ import FV.Model.Registry
 import FV.Proofs.Registry
 import FV.Generated.Params
 import FV.Generated.Locks
+import FV.Proofs.Locks
 
 namespace FV.C13
 open FV.Reg
@@ -102,5 +103,22 @@ critical section ONE step of the model and rules out the self-deadlocks (a secon
 writer, SendError under SendReply's lock) and leaked locks that would wedge every later request. -/
 theorem c13_lock_discipline :
     FV.Locks.ok [1, 2, 3] FV.Generated.Locks.mutexTags FV.Generated.Locks.facts = true := by decide +kernel
+
+/-- **No lifecycle lock on the call path**: Request and Oneway of the adapter, NATS and HTTP client transports
+acquire — on every resolved call path, facts regenerated from lib/go on every check — no mutex tagged as
+the adapter's lifecycle lock. That lock is held by Open / Close across the underlying transport's Open /
+Close, which can stall in the network for arbitrarily long (a monitor's reconnect hanging in connect): a call
+that had to take it would return arbitrarily later than its FContext timeout. -/
+theorem c13_calls_take_no_lifecycle_lock :
+    FV.Locks.rootsAvoid [2] FV.Generated.Locks.mutexTags FV.Generated.Locks.facts FV.Generated.Locks.callRoots = true := by
+  decide +kernel
+
+/-- …stated over call paths (`FV.Locks.rootsAvoid_sound`). -/
+theorem c13_no_lifecycle_lock_on_any_call_path {f h : Nat} (hf : f ∈ FV.Generated.Locks.callRoots)
+    (hr : FV.Locks.Reach FV.Generated.Locks.facts f h) {fnh : FV.Locks.Fn}
+    (hh : FV.Generated.Locks.facts[h]? = some fnh) {m : Nat} (hm : m ∈ fnh.acquires)
+    (hlt : m < FV.Generated.Locks.mutexTags.length) :
+    [2].contains (FV.Generated.Locks.mutexTags.getD m 0) = false :=
+  FV.Locks.rootsAvoid_sound _ _ _ _ c13_calls_take_no_lifecycle_lock hf hr hh hm hlt
 
 end FV.C13
